@@ -39,6 +39,20 @@ pub fn short(s: &str, n: usize) -> String {
     }
 }
 
+/// For terminal output: control characters other than line feed (NUL, ESC, CR, ...) are shown as
+/// `\u{..}` so that a report never makes the output look binary to `grep` or repositions a cursor.
+pub fn printable(s: &str) -> String {
+    let mut out = String::with_capacity(s.len());
+    for c in s.chars() {
+        if c.is_control() && c != '\n' {
+            out.push_str(&format!("\\u{{{:x}}}", c as u32));
+        } else {
+            out.push(c);
+        }
+    }
+    out
+}
+
 pub fn lossy(b: &[u8]) -> String {
     String::from_utf8_lossy(b).to_string()
 }
